@@ -40,6 +40,22 @@ fn spawn_child(run: &DetRun, dump: bool) -> Result<(Digests, Digests), String> {
         .stdin(Stdio::piped())
         .stdout(Stdio::piped())
         .stderr(Stdio::null());
+    match run.proc_env {
+        1 => {
+            cmd.current_dir("/");
+        }
+        2 => {
+            let d = mmsim::sut::scratch_dir().join("cwd");
+            let _ = std::fs::create_dir_all(&d);
+            cmd.current_dir(d).env("TZ", "Pacific/Auckland").env("LANG", "tr_TR.UTF-8").env("LC_ALL", "tr_TR.UTF-8");
+        }
+        3 => {
+            for i in 0..300 {
+                cmd.env(format!("VERIF_PAD_{i}"), "x".repeat(64 + i));
+            }
+        }
+        _ => {}
+    }
     let mut ch = cmd.spawn().map_err(|e| format!("HARNESS: spawn: {e}"))?;
     ch.stdin
         .take()
@@ -312,6 +328,7 @@ fn main() {
                 target: detsim::Src::Text("fn dsp(){\n  1.0\n}\n".into()),
                 placement: Placement::Main,
                 samples: 2,
+                proc_env: 0,
             };
             let o = |h: u64| spawn_child(&mk(h), false).map(|(a, _)| a.probe_order);
             match (o(1), o(1), o(2), o(3)) {
